@@ -139,6 +139,10 @@ def check_ds(c, rec):
         # index into the stacked statistics of the leaves after it must not move
         zshape = [(13,), (5,), (20,)][int(rng.integers(0, 3))]
         cfg = dict(cfg, skip_preconditioning_rank_lt=2)
+        if mode == "pmap2":
+          # a parameter without statistics carries zero-size metric arrays, and this jaxlib's CPU compiler segfaults on any
+          # pmap over >= 2 host devices with a zero-size operand (environment defect): run these cases without metrics
+          cfg["generate_training_metrics"] = False
         rec.count("cases_skipped_companion")
         full = run_ds(cfg, {"w": hist}, c["T"], mode)
       comp = run_ds(cfg, {"w": hist, zkey: [(rng.standard_normal(zshape) * zs).astype(np.float32) for _ in range(c["T"])]}, c["T"], mode)
